@@ -214,7 +214,7 @@ class Be(Family):
                 msgs.append((b, fds))
         if malformed and rng.chance(1, 6):
             msgs.append((bytes(rng.below(256) for _ in range(1 + rng.below(40))), g.fds(rng.below(3))))
-        outcomes = [(0 if rng.chance(3, 4) else rng.choice([1, 1, 2, 3, 4])) for _ in range(len(msgs) + 2)]
+        outcomes = [(0 if rng.chance(3, 4) else rng.choice([1, 1, 2, 3, 4, 5])) for _ in range(len(msgs) + 2)]
         return feat, pfeat, outcomes, [(b, f) for b, f in msgs if len(b) > 0]
 
     def generate(self, rng, tier):
